@@ -42,8 +42,14 @@ def pollsOf (gtMs : Nat) : Nat := (gtMs + 99) / 100
 
 /-! ### Watcher.kill_process -/
 
+/-- psutil.AccessDenied (the daemon is not permitted to signal the process): not an OSError, not a NoSuchProcess —
+    no `except` clause of watcher.py / process.py catches it on the signalling paths -/
+def accessDenied : Val := excVal "AccessDenied"
+
 def killFinish (rec : Rec) (wuid pid : Nat) (escalate : Bool) (wt : Waiter) : M Unit := do
-  if escalate then sendSignalProcess wuid pid 9 true
+  -- an AccessDenied of the SIGKILL escapes from kill_process: `process.stopping` stays set, `process.stop()` is skipped
+  let ok ← if escalate then sendSignalProcess wuid pid 9 true else pure true
+  if !ok then deliver rec wt accessDenied else
   setObjStopping pid false
   objStop pid
   deliver rec wt (.bool true)
@@ -62,12 +68,16 @@ def killProcess (rec : Rec) (wuid pid : Nat) (sig : Option Nat) (gt : Option Nat
   let sig := sig.getD w.stopSignal
   let gt := gt.getD w.graceful
   if o.stopping then awaitSleep 100 (.killWaitOther pid) wt else      -- wait for the kill that is in flight
-  let ok ← if w.stopChildren then do sendSignalProcess wuid pid sig false; pure true
+  -- `except NoSuchProcess: return False`; an AccessDenied escapes (before `process.stopping = True`)
+  let r ← if w.stopChildren then do
+             let ok ← sendSignalProcess wuid pid sig false
+             pure (if ok then SigRes.ok else .denied)
            else do
              let r ← sendSignal wuid pid sig
-             if r then notify wuid "kill" (some pid)
+             if r = .ok then notify wuid "kill" (some pid)
              pure r
-  if !ok then deliver rec wt (.bool false) else
+  if r = .denied then deliver rec wt accessDenied else
+  if r = .noSuch then deliver rec wt (.bool false) else
   setObjStopping pid true
   killLoop rec wuid pid sig 0 (pollsOf gt) wt
 
@@ -254,12 +264,15 @@ def reloadW (rec : Rec) (wuid : Nat) (graceful sequential : Bool) (wt : Waiter) 
   if !graceful then await rec (.restart_ wuid) .startTail wt
   else if w.status = .stopped then await rec (.start_ wuid) (.reloadTail wuid) wt
   else if w.sendHup then
-    let mut ok := true
+    -- `process.send_signal(SIGHUP)`: the first NoSuchProcess / AccessDenied escapes
+    let mut err : Option Exc := none
     for pid in w.pids do
-      if ok then
+      if err.isNone then
         let r ← kKill pid 1
-        if !r then ok := false
-    if ok then rec (.resume (.reloadTail wuid) .unit wt) else deliver rec wt (.exc .noSuchProcess)
+        err := r.exc
+    match err with
+    | none => rec (.resume (.reloadTail wuid) .unit wt)
+    | some e => deliver rec wt (.exc e)
   else if sequential then
     let act ← activeProcs wuid
     rec (.resume (.reloadSeqAfterSleep wuid act) .unit wt)
@@ -376,8 +389,9 @@ def manageWatchersTail (rec : Rec) (need : Bool) (wt : Waiter) : M Unit := do
     let s ← getS
     -- only the on-demand watchers (as repaired: a socket event does not bring back watchers stopped on purpose)
     let od := ws.filter fun u => match s.ws.find? (·.uid = u) with | some w => w.onDemand | none => false
-    -- nobody holds the returned future: an exception that escapes it is reported by the loop (`watch`)
-    let tid ← newTop [.watch]
+    -- nobody holds the returned future: an exception that escapes it is only logged by asyncio ("Future exception
+    -- was never retrieved") when the future is freed — not an observable
+    let tid ← newTop []
     rec (.call (.arbStartWatchers od) (.top tid))
     armTop tid
     setSocketEvent false
